@@ -29,6 +29,8 @@ def seeded():
         m = json.load(open(mp))
         res = m.get('quick_check_result') or {}
         st = ', '.join('%s: %s' % (p, 'caught' if r.get('caught') else 'MISSED') for p, r in sorted(res.items())) or m.get('result', '?')
+        if m.get('obsolete'):
+            st += ' (patch obsolete: the code it changed was rewritten by a later fix)'
         if m.get('outside_statement'):
             st = st.replace('MISSED', 'silent by design (the change does not break the statement, see meta.json)')
         first = m.get('first_quick_check_result') or {}
